@@ -22,26 +22,141 @@ theorem clsHas_single_range (lo hi d : Char) : clsHas false false [ClsItem.range
 theorem clsHas_single_named (k : CClass) (d : Char) : clsHas false false [ClsItem.named k] d = k.has d := by
   simp [clsHas, itemHas]
 
-/-- a literal leaf inside `Ast.plain` accepts exactly the characters its bracket expression accepts -/
-theorem litRe_has {ic : Bool} {l : Lit}
-    (h : (l.neg.isEmpty && (l.cls.isNone || (!ic && l.lo == 0 && l.hi.isNone))) = true) (d : Char) :
-    ∃ items, litRe ic l = .cls false items ∧ clsHas false false items d = l.has ic d := by
+/-! ### classes under REG_ICASE, case-sensitively -/
+
+theorem classHas_small (k : CClass) : ∀ n, n < 128 → classHas true k (Char.ofNat n) = (icClose k).has (Char.ofNat n) := by
+  cases k <;> decide +kernel
+
+theorem not_le_small (d : Char) (h : 128 ≤ d.toNat) (c : UInt32) (hc : c.toNat < 128) : ¬ d.val ≤ c := by
+  rw [UInt32.le_iff_toNat_le]
+  have : d.val.toNat = d.toNat := rfl
+  omega
+
+theorem fold_big (d : Char) (h : 128 ≤ d.toNat) : fold d = d := by
+  unfold fold Char.toLower
+  split
+  · rename_i hh; exact absurd hh.2 (not_le_small d h _ (by decide))
+  · rfl
+
+theorem upper_big (d : Char) (h : 128 ≤ d.toNat) : upper d = d := by
+  unfold upper Char.toUpper
+  split
+  · rename_i hh; exact absurd hh.2 (not_le_small d h _ (by decide))
+  · rfl
+
+theorem has_big (k : CClass) (d : Char) (h : 128 ≤ d.toNat) : k.has d = false := by
+  have e1 : ∀ c : UInt32, c.toNat < 128 → decide (d.val ≤ c) = false := fun c hc => by simp [not_le_small d h c hc]
+  have e2 : ∀ n : Nat, n < 128 → decide (d.toNat ≤ n) = false := fun n hn => by simp; omega
+  have e3 : ∀ c : Char, c.toNat < 128 → (d == c) = false := fun c hc => by
+    simp only [beq_eq_false_iff_ne, ne_eq]; intro hdc; subst hdc; omega
+  cases k <;> simp [CClass.has, between, Char.isAlpha, Char.isUpper, Char.isLower, Char.isDigit, Char.isAlphanum, e1, e2, e3] <;> omega
+
+/-- **a named class under REG_ICASE** (`tre_isctype(c) || tre_isctype(tolower c) || tre_isctype(toupper c)`) is the
+class `icClose k` matched case-sensitively — for every class and every character -/
+theorem classHas_icClose (k : CClass) (d : Char) : classHas true k d = (icClose k).has d := by
+  by_cases h : d.toNat < 128
+  · have := classHas_small k d.toNat h
+    rwa [Char.ofNat_toNat] at this
+  · have h' : 128 ≤ d.toNat := by omega
+    simp [classHas, fold_big d h', upper_big d h', has_big _ d h']
+
+theorem nm_has (ic : Bool) (k : CClass) (d : Char) :
+    itemHas false (.named (if ic then icClose k else k)) d = classHas ic k d := by
+  cases ic
+  · simp [itemHas, classHas]
+  · rw [classHas_icClose]; simp [itemHas]
+
+/-! ### complement ranges -/
+
+theorem ofNat_toNat_small (n : Nat) (h : n < 0xD800) : (Char.ofNat n).toNat = n := by
+  have hv : n.isValidChar := Or.inl h
+  simp [Char.ofNat, hv, Char.ofNatAux, Char.toNat]
+
+theorem inRange_nat (a b d : Char) : inRange a b d = (decide (a.toNat ≤ d.toNat) && decide (d.toNat ≤ b.toNat)) := by
+  unfold inRange
+  simp only [UInt32.le_iff_toNat_le]
+  rfl
+
+theorem char_toNat_le_max (d : Char) : d.toNat ≤ 1114111 := by
+  have hv := d.valid
+  simp only [UInt32.isValidChar, Nat.isValidChar] at hv
+  have : d.val.toNat = d.toNat := rfl
+  omega
+
+theorem complRanges_has (l : Lit) (hl : l.lowCodes = true) (d : Char) :
+    (!(complRanges l).any (fun it => itemHas false it d)) = inRange (Char.ofNat l.lo) (hiChar l.hi) d := by
   obtain ⟨lo, hi, pos, cls, neg⟩ := l
-  simp only [Bool.and_eq_true, Bool.or_eq_true, List.isEmpty_iff] at h
-  obtain ⟨hn, hc⟩ := h
-  subst hn
-  cases cls with
+  have hmax : (Char.ofNat 0x10FFFF).toNat = 1114111 := by decide
+  have h0 : (Char.ofNat 0).toNat = 0 := by decide
+  have hd := char_toNat_le_max d
+  simp only [Lit.lowCodes, Bool.and_eq_true, decide_eq_true_eq] at hl
+  obtain ⟨hlo, hhi⟩ := hl
+  cases hi with
   | none =>
-    refine ⟨[ClsItem.range (Char.ofNat lo) (hiChar hi)], by simp [litRe], ?_⟩
-    simp [clsHas_single_range, Lit.has]
-  | some k =>
-    rcases hc with hc | hc
-    · simp at hc
-    · simp only [Bool.not_eq_true', beq_iff_eq, Option.isNone_iff_eq_none] at hc
-      obtain ⟨⟨hic, hlo⟩, hhi⟩ := hc
-      subst hic; subst hlo; subst hhi
-      refine ⟨[ClsItem.named k], by simp [litRe], ?_⟩
-      simp [clsHas_single_named, Lit.has, hiChar, inRange_full, classHas]
+    by_cases h0' : lo = 0
+    · subst h0'
+      simp [complRanges, hiChar, inRange_nat, hmax, h0, hd]
+    · have e1 := ofNat_toNat_small lo hlo
+      have e2 := ofNat_toNat_small (lo - 1) (by omega)
+      simp only [complRanges, h0', if_false, List.append_nil, List.any_cons, List.any_nil, Bool.or_false, itemHas, Bool.false_and,
+        hiChar, inRange_nat, hmax, h0, e1, e2]
+      rw [Bool.eq_iff_iff]
+      simp
+      omega
+  | some h =>
+    simp only [decide_eq_true_eq] at hhi
+    have e3 := ofNat_toNat_small h (by omega)
+    have e4 := ofNat_toNat_small (h + 1) hhi
+    by_cases h0' : lo = 0
+    · subst h0'
+      simp only [complRanges, if_true, List.nil_append, List.any_cons, List.any_nil, Bool.or_false, itemHas, Bool.false_and,
+        hiChar, inRange_nat, hmax, h0, e3, e4]
+      rw [Bool.eq_iff_iff]
+      simp
+      omega
+    · have e1 := ofNat_toNat_small lo hlo
+      have e2 := ofNat_toNat_small (lo - 1) (by omega)
+      simp only [complRanges, h0', if_false, List.cons_append, List.nil_append, List.any_cons, List.any_nil, Bool.or_false, itemHas, Bool.false_and,
+        hiChar, inRange_nat, hmax, h0, e1, e2, e3, e4]
+      rw [Bool.eq_iff_iff]
+      simp
+      omega
+
+theorem any_nm (ic : Bool) (d : Char) : ∀ (neg : List CClass),
+    (neg.map fun k => ClsItem.named (if ic then icClose k else k)).any (fun it => itemHas false it d) = neg.any (fun k => classHas ic k d)
+  | [] => rfl
+  | k :: rest => by simp only [List.map_cons, List.any_cons, nm_has, any_nm ic d rest]
+
+/-- a literal leaf inside `Ast.plain` accepts exactly the characters its bracket expression accepts -/
+theorem litRe_cls {ic : Bool} {l : Lit}
+    (h : (if l.neg.isEmpty then l.cls.isNone || (l.lo == 0 && l.hi.isNone) else l.cls.isNone && l.lowCodes) = true) :
+    ∃ ng items, litRe ic l = .cls ng items ∧ ∀ d, clsHas false ng items d = l.has ic d := by
+  by_cases hn : l.neg.isEmpty = true
+  · rw [if_pos hn] at h
+    obtain ⟨lo, hi, pos, cls, neg⟩ := l
+    simp only [List.isEmpty_iff] at hn
+    subst hn
+    cases cls with
+    | none =>
+      refine ⟨false, [ClsItem.range (Char.ofNat lo) (hiChar hi)], by simp [litRe], fun d => ?_⟩
+      simp [clsHas_single_range, Lit.has]
+    | some k =>
+      simp only [Option.isNone_some, Bool.false_or, Bool.and_eq_true, beq_iff_eq, Option.isNone_iff_eq_none] at h
+      obtain ⟨hlo, hhi⟩ := h
+      subst hlo; subst hhi
+      refine ⟨false, [ClsItem.named (if ic then icClose k else k)], by simp [litRe], fun d => ?_⟩
+      simp only [clsHas, List.any_cons, List.any_nil, Bool.or_false, nm_has, Lit.has, hiChar, inRange_full, List.all_nil,
+        Bool.true_and, Bool.and_true]
+      cases classHas ic k d <;> rfl
+  · rw [if_neg hn] at h
+    simp only [Bool.and_eq_true, Option.isNone_iff_eq_none] at h
+    obtain ⟨hc, hl⟩ := h
+    refine ⟨true, l.neg.map (fun k => ClsItem.named (if ic then icClose k else k)) ++ complRanges l, by simp [litRe, hn], fun d => ?_⟩
+    have hcr := complRanges_has l hl d
+    simp only [clsHas, List.any_append, any_nm, Lit.has, hc]
+    rw [← hcr]
+    cases hA : l.neg.any (fun k => classHas ic k d) <;> cases hB : (complRanges l).any (fun it => itemHas false it d) <;>
+      simp [List.all_eq_not_any_not, hA]
 
 /-- **the tree means what its `Re` means** (for `Ast.plain` trees) -/
 theorem toRe_denotation {ic nb ne : Bool} {s : List Char} : ∀ (a : Ast), a.plain ic = true →
@@ -55,22 +170,10 @@ theorem toRe_denotation {ic nb ne : Bool} {s : List Char} : ∀ (a : Ast), a.pla
   | .leaf (.backref _ _) _ _, h => by simp [Ast.plain] at h
   | .leaf (.lit l) _ _, h => by
     simp only [Ast.plain] at h
+    obtain ⟨ng, items, hit, hx⟩ := litRe_cls (ic := ic) h
     refine ⟨litRe ic l, by simp [toRe], fun i j => ?_⟩
-    constructor
-    · rintro ⟨hj, d, hd, hh⟩
-      obtain ⟨items, hit, hx⟩ := litRe_has h d
-      rw [hit]
-      exact ⟨hj, d, hd, by rw [hx]; exact hh⟩
-    · intro hm
-      obtain ⟨items0, hit0, _⟩ := litRe_has (ic := ic) h 'a'
-      rw [hit0] at hm
-      obtain ⟨hj, d, hd, hh⟩ := hm
-      obtain ⟨items, hit, hx⟩ := litRe_has h d
-      have : items = items0 := by
-        have := hit.symm.trans hit0
-        injection this
-      subst this
-      exact ⟨hj, d, hd, by rw [← hx]; exact hh⟩
+    rw [hit]
+    simp only [AMatches, Matches, hx]
   | .cat a b _ _, h => by
     simp only [Ast.plain, Bool.and_eq_true] at h
     obtain ⟨ra, ha, hA⟩ := toRe_denotation (ic := ic) (nb := nb) (ne := ne) (s := s) a h.1
